@@ -140,6 +140,8 @@ class UnitRegistry:
         from unyt.unit_object import _validate_dimensions
 
         self._unit_system_id = None
+        # cached Unit objects may have been built from an earlier definition
+        self._unit_object_cache.clear()
 
         # Validate
         if not isinstance(base_value, float):
@@ -184,8 +186,8 @@ class UnitRegistry:
             )
 
         del self.lut[symbol]
-        if symbol in self._unit_object_cache:
-            del self._unit_object_cache[symbol]
+        # any cached unit string (prefixed or compound) may mention the symbol
+        self._unit_object_cache.clear()
 
     def modify(self, symbol, base_value):
         """
@@ -217,8 +219,8 @@ class UnitRegistry:
             new_dimensions = self.lut[symbol][1]
 
         self.lut[symbol] = (float(base_value), new_dimensions) + self.lut[symbol][2:]
-        if symbol in self._unit_object_cache:
-            del self._unit_object_cache[symbol]
+        # any cached unit string (prefixed or compound) may mention the symbol
+        self._unit_object_cache.clear()
 
     def keys(self):
         """
